@@ -55,20 +55,23 @@ Record st := mkSt {
   kinds : list bool;          (* kind of every directory ever created; next id = length *)
   locks : list nat;           (* names whose resolveLock is held *)
   thrs : list thr;            (* Resolve calls *)
-  uh : list (nat * bool)      (* layerRefs handed to callers: (layer-cache handle, Done/Close already called) *)
+  uh : list (nat * bool);     (* layerRefs handed to callers: (layer-cache handle, Done/Close already called) *)
+  bad : list nat              (* blobs (by value id) whose fetcher was replaced, by an accepted Refresh, with one that
+                                 serves other bytes than the blob's (same size, different content) *)
 }.
 
-Definition init : st := mkSt (R.init 0) (R.init 0) [] [] [] [] [] [] [].
+Definition init : st := mkSt (R.init 0) (R.init 0) [] [] [] [] [] [] [] [].
 
-Definition set_lc s x := mkSt x (bc s) (lobjs s) (bobjs s) (dirs s) (kinds s) (locks s) (thrs s) (uh s).
-Definition set_bc s x := mkSt (lc s) x (lobjs s) (bobjs s) (dirs s) (kinds s) (locks s) (thrs s) (uh s).
-Definition set_lobjs s x := mkSt (lc s) (bc s) x (bobjs s) (dirs s) (kinds s) (locks s) (thrs s) (uh s).
-Definition set_bobjs s x := mkSt (lc s) (bc s) (lobjs s) x (dirs s) (kinds s) (locks s) (thrs s) (uh s).
-Definition set_dirs s x := mkSt (lc s) (bc s) (lobjs s) (bobjs s) x (kinds s) (locks s) (thrs s) (uh s).
-Definition set_kinds s x := mkSt (lc s) (bc s) (lobjs s) (bobjs s) (dirs s) x (locks s) (thrs s) (uh s).
-Definition set_locks s x := mkSt (lc s) (bc s) (lobjs s) (bobjs s) (dirs s) (kinds s) x (thrs s) (uh s).
-Definition set_thrs s x := mkSt (lc s) (bc s) (lobjs s) (bobjs s) (dirs s) (kinds s) (locks s) x (uh s).
-Definition set_uh s x := mkSt (lc s) (bc s) (lobjs s) (bobjs s) (dirs s) (kinds s) (locks s) (thrs s) x.
+Definition set_lc s x := mkSt x (bc s) (lobjs s) (bobjs s) (dirs s) (kinds s) (locks s) (thrs s) (uh s) (bad s).
+Definition set_bc s x := mkSt (lc s) x (lobjs s) (bobjs s) (dirs s) (kinds s) (locks s) (thrs s) (uh s) (bad s).
+Definition set_lobjs s x := mkSt (lc s) (bc s) x (bobjs s) (dirs s) (kinds s) (locks s) (thrs s) (uh s) (bad s).
+Definition set_bobjs s x := mkSt (lc s) (bc s) (lobjs s) x (dirs s) (kinds s) (locks s) (thrs s) (uh s) (bad s).
+Definition set_dirs s x := mkSt (lc s) (bc s) (lobjs s) (bobjs s) x (kinds s) (locks s) (thrs s) (uh s) (bad s).
+Definition set_kinds s x := mkSt (lc s) (bc s) (lobjs s) (bobjs s) (dirs s) x (locks s) (thrs s) (uh s) (bad s).
+Definition set_locks s x := mkSt (lc s) (bc s) (lobjs s) (bobjs s) (dirs s) (kinds s) x (thrs s) (uh s) (bad s).
+Definition set_thrs s x := mkSt (lc s) (bc s) (lobjs s) (bobjs s) (dirs s) (kinds s) (locks s) x (uh s) (bad s).
+Definition set_uh s x := mkSt (lc s) (bc s) (lobjs s) (bobjs s) (dirs s) (kinds s) (locks s) (thrs s) x (bad s).
+Definition set_bad s x := mkSt (lc s) (bc s) (lobjs s) (bobjs s) (dirs s) (kinds s) (locks s) (thrs s) (uh s) x.
 
 Fixpoint rm (d : nat) (l : list nat) : list nat :=
   match l with
@@ -135,13 +138,21 @@ Definition layer_flags (s : st) (h : nat) : bool * bool :=
   | None => (true, true)
   end.
 
+(* the blob (value id in the blob cache) behind a layer-cache handle *)
+Definition blob_of (s : st) (h : nat) : option nat :=
+  match hval (lc s) h with
+  | Some v => match nth_error (lobjs s) v with Some o => hval (bc s) (l_bh o) | None => None end
+  | None => None
+  end.
+
 Inductive ev :=
 | ENone
 | EBlocked                          (* Resolve waits for the per-name lock *)
 | EPause (k : nat)                  (* Resolve is about to make an external call: 1 = connectivity check, 3 = registry, 4 = metadata store *)
 | ERet (v : nat) (fresh : bool)     (* Resolve returned layer object v (fresh = created by this call) *)
 | EErr                              (* Resolve / Refresh returned an error *)
-| EUse (lclosed bclosed : bool).    (* what a holder observes *)
+| EUse (lclosed bclosed : bool)     (* what a holder observes (Check, RootNode, reads served from the caches) *)
+| EProbe (ok : bool).               (* a read that has to go to the registry returned the blob's bytes *)
 
 Definition setpc s t n p := set_thrs s (R.upd (thrs s) t (mkT n p)).
 Definition unlock s n := set_locks s (rm n (locks s)).
@@ -215,6 +226,11 @@ Definition tstep (s : st) (t : nat) (ok : bool) : st * ev :=
     end
   end.
 
+(* what the registry answers to a Refresh (blob.Refresh -> resolveFetcher): the same blob again, an error, a blob of
+   another size (refused: "invalid size of new blob"), or a blob of the same size with other bytes (accepted: only
+   the size is compared) *)
+Inductive rfo := RfOk | RfErr | RfSize | RfContent.
+
 Inductive op :=
 | RStart (n : nat)
 | RStep (t : nat) (ok : bool)
@@ -223,7 +239,8 @@ Inductive op :=
 | ExpireL (n : nat)
 | ExpireB (n : nat)
 | Use (u : nat)
-| Refresh (u : nat) (ok : bool).
+| Refresh (u : nat) (r : rfo)
+| Probe (u : nat)   (* read of a part of the blob that is not in the blob cache yet *).
 
 Definition release (s : st) (u : nat) (evict : bool) : st :=
   match nth_error (uh s) u with
@@ -244,9 +261,29 @@ Definition step (s : st) (o : op) : st * ev :=
       | Some (h, _) => let '(a, b) := layer_flags s h in (s, EUse a b)
       | None => (s, ENone)
       end
-  | Refresh u ok =>
+  | Refresh u r =>
+      (* layer.Refresh: closed layer / closed blob -> error; resolveFetcher error -> error; other size -> error;
+         otherwise the blob's fetcher is replaced by the new one *)
       match nth_error (uh s) u with
-      | Some (h, _) => let '(a, b) := layer_flags s h in (s, if negb a && negb b && ok then ENone else EErr)
+      | Some (h, _) =>
+          let '(a, b) := layer_flags s h in
+          if negb a && negb b then
+            match r, blob_of s h with
+            | RfOk, Some bid => (set_bad s (rm bid (bad s)), ENone)
+            | RfContent, Some bid => (set_bad s (bid :: rm bid (bad s)), ENone)
+            | RfOk, None | RfContent, None => (s, ENone)
+            | RfErr, _ | RfSize, _ => (s, EErr)
+            end
+          else (s, EErr)
+      | None => (s, ENone)
+      end
+  | Probe u =>
+      match nth_error (uh s) u with
+      | Some (h, _) =>
+          match blob_of s h with
+          | Some bid => (s, EProbe (negb (snd (layer_flags s h)) && negb (mem bid (bad s))))
+          | None => (s, EProbe false)
+          end
       | None => (s, ENone)
       end
   end.
@@ -343,6 +380,7 @@ Definition ev_eqb (a b : ev) : bool :=
   | EPause x, EPause y => Nat.eqb x y
   | ERet v f, ERet w g => Nat.eqb v w && Bool.eqb f g
   | EUse a1 b1, EUse a2 b2 => Bool.eqb a1 a2 && Bool.eqb b1 b2
+  | EProbe a1, EProbe a2 => Bool.eqb a1 a2
   | _, _ => false
   end.
 Definition out_eqb (a b : out) : bool :=
